@@ -408,7 +408,8 @@ def stdFormatOk (syms : Str) : Bool :=
 /-- STANDARD matrices: the FORMAT statement composed for an alphabet (`SYMBOLS="…"` with the gap among the symbols,
 `MISSING=?`) parses back to the standard type with the same symbol set, and `_build_state_alphabet` rebuilds an
 alphabet in which every symbol denotes itself.  `_partial`: proved for the default alphabet and the custom symbol
-sets the generator uses (a finite list, by evaluation), not for an arbitrary symbol string. -/
+sets the generator uses (a finite list, by evaluation). The parsing half for an ARBITRARY symbol string is
+`format_standard_roundtrip` below; what stays finite here is "every symbol of the rebuilt alphabet denotes itself". -/
 theorem format_standard_roundtrip_partial :
     ∀ syms ∈ ["0123456789".toList, "01".toList, "10".toList, "012".toList, "0123".toList, "ABC".toList, "01234567".toList],
       stdFormatOk syms = true := by
@@ -616,9 +617,9 @@ theorem phylip_sequence_roundtrip (al : List St) (s : Str)
     have hc := h c (by simp)
     simp [phSeq, hc.1, hc.2, ih (fun x hx => h x (by simp [hx]))]
 
-/-- `_partial`: a fragment (the `re.split` step `splitRun false` of `phTaxon` on the line `phWrite` lays out); it is not composed
-into `phRead (phWrite m) = m`, and the multispace / underscore variants and interleaved paging have no theorem (all
-four variants are compared with the code on every PHYLIP case).
+/-- `_partial`: a fragment (the `re.split` step `splitRun false` of `phTaxon` on the line `phWrite` lays out). The whole file
+is `phylip_relaxed_roundtrip` below (all option pairs, multispace included); what remains without a theorem is the reader's
+interleaved paging (`phInterleaved`), which the writer never produces.
 Relaxed PHYLIP: the line the writer produces (label padded to the longest label, two spaces, sequence) splits back
 into the label and the sequence, for every label without blanks (`LabelAdmissible` for the relaxed variant) -/
 theorem phylip_relaxed_line_roundtrip_partial (label seq : Str) (width : Nat)
@@ -633,7 +634,7 @@ theorem phylip_relaxed_line_roundtrip_partial (label seq : Str) (width : Nat)
   rw [this, splitRun_label label _ hl, dropWhile_replicate_blank _ _ hs]
 
 /-- `_partial`: a fragment (the column split of the strict branch of `phTaxon`, written out on `phWrite`'s strict line
-layout `ljust 10 (label.take 10) ++ seq`); not composed into a file round trip.
+layout `ljust 10 (label.take 10) ++ seq`); composed into the whole file in `phylip_strict_roundtrip` below.
 Strict PHYLIP: the first ten columns, stripped, give back every label of at most ten characters that does not
 start or end with white space, and the sequence starts at column eleven -/
 theorem phylip_strict_line_roundtrip_partial (label seq : Str) (hlen : label.length ≤ 10)
@@ -658,8 +659,8 @@ theorem phylip_strict_line_roundtrip_partial (label seq : Str) (hlen : label.len
 /-! ### FASTA -/
 
 /-- `_partial`: states the symbol lookup over the wrapped text as a whole (`faSeq` skips the inserted line breaks); the
-executed path `faRead ∘ splitLines` strips and appends line by line — equal in effect, but that composition and the
-record/name handling are compared with the code only.
+executed path `faRead ∘ splitLines` strips and appends line by line; that composition, with names and records, is
+`fasta_roundtrip` below.
 The sequence lines of a FASTA record (wrapped every 70 symbols) read back as the unwrapped sequence -/
 theorem fasta_wrap_roundtrip_partial (al : List St) (s : Str) (col : Nat)
     (h : ∀ c ∈ s, lookup al c = some c ∧ isWs c = false) : faSeq al (wrap70 col s) = .ok s := by
@@ -803,3 +804,1098 @@ example : nexmlReadRow [0, 1, 2, 3] [(2, 'c'), (3, 'd')] = some [none, none, som
 example : nexmlReadRow [0, 1] [(0, 'c'), (5, 'd')] = none := by decide
 
 end DendroModel.C09
+
+/-! ## whole-file PHYLIP -/
+namespace DendroModel.C09.Aux
+
+/-! header -/
+theorem natStr_toDigits (n : Nat) : natStr n = Nat.toDigits 10 n := by
+  unfold natStr
+  show (Nat.repr n).toList = _
+  exact Nat.toList_repr
+
+theorem natStr_ne_nil (n : Nat) : natStr n ≠ [] := by
+  rw [natStr_toDigits]; exact Nat.toDigits_ne_nil
+
+theorem digitsVal_natStr (n : Nat) : digitsVal (natStr n) = n := by
+  have h := @Nat.ofDigitChars_ten_toDigits n
+  rw [Nat.ofDigitChars_eq_foldl] at h
+  rw [natStr_toDigits]
+  unfold digitsVal
+  have : (fun (n : Nat) (c : Char) => n * 10 + (c.toNat - 48)) = (fun sofar c => 10 * sofar + (c.toNat - '0'.toNat)) := by
+    funext a c
+    have : '0'.toNat = 48 := by decide
+    rw [this, Nat.mul_comm]
+  rw [this]; exact h
+
+theorem allDigits_natStr (n : Nat) : allDigits (natStr n) = true := by
+  unfold allDigits
+  have h1 := natStr_ne_nil n
+  have h2 := natStr_digits n
+  simp only [Bool.and_eq_true, Bool.not_eq_true', List.all_eq_true]
+  refine ⟨?_, h2⟩
+  cases h : natStr n with
+  | nil => exact absurd h h1
+  | cons _ _ => rfl
+
+theorem isWs_digit (c : Char) (h : c.isDigit = true) : isWs c = false := by
+  simp [Char.isDigit] at h
+  unfold isWs
+  have h1 := h.1
+  have ne : ∀ d : Char, d.val < 48 → c ≠ d := by
+    intro d hd he; subst he
+    exact absurd (UInt32.lt_of_lt_of_le hd h1) (by simp [UInt32.lt_irrefl])
+  simp [ne ' ' (by decide), ne '\t' (by decide), ne '\n' (by decide), ne '\r' (by decide)]
+
+def wsStep (c : Char) (acc : List Str) : List Str :=
+  if isWs c then [] :: acc else match acc with
+    | [] => [[c]]
+    | t :: ts => (c :: t) :: ts
+
+theorem wsWords_eq (s : Str) : wsWords s = (s.foldr wsStep [[]]).filter (fun t => !t.isEmpty) := rfl
+
+theorem foldr_word (b : Str) (t : Str) (ts : List Str) (h : ∀ c ∈ b, isWs c = false) :
+    b.foldr wsStep (t :: ts) = (b ++ t) :: ts := by
+  induction b with
+  | nil => rfl
+  | cons c cs ih =>
+    simp [List.foldr, ih (fun x hx => h x (by simp [hx])), wsStep, h c (by simp)]
+
+theorem wsWords_two (a b : Str) (ha : ∀ c ∈ a, isWs c = false) (hb : ∀ c ∈ b, isWs c = false)
+    (ha0 : a ≠ []) (hb0 : b ≠ []) : wsWords (a ++ [' '] ++ b) = [a, b] := by
+  rw [wsWords_eq, List.append_assoc, List.foldr_append, List.singleton_append, List.foldr_cons, foldr_word b [] [] hb]
+  have : wsStep ' ' [b ++ []] = [[], b] := by simp [wsStep, isWs]
+  rw [this, foldr_word a [] [b] ha]
+  cases a with
+  | nil => exact absurd rfl ha0
+  | cons x xs =>
+    cases b with
+    | nil => exact absurd rfl hb0
+    | cons y ys => simp
+
+
+/-! rows -/
+theorem phFind_none (rows : List (Str × Str)) (l : Str) (h : ∀ p ∈ rows, (lower p.1 == lower l) = false) :
+    phFind rows l = none := by
+  unfold phFind
+  rw [List.find?_eq_none.mpr (by intro p hp; simp [h p hp])]
+  rfl
+
+theorem phFind_last (rows : List (Str × Str)) (l x : Str) (h : ∀ p ∈ rows, (lower p.1 == lower l) = false) :
+    phFind (rows ++ [(l, x)]) l = some x := by
+  induction rows with
+  | nil => simp [phFind]
+  | cons p ps ih =>
+    have hp := h p (by simp)
+    have := ih (fun q hq => h q (by simp [hq]))
+    unfold phFind at this ⊢
+    simp only [List.cons_append, List.find?_cons, hp]
+    exact this
+
+theorem phSet_last (rows : List (Str × Str)) (l x y : Str) (h : ∀ p ∈ rows, (lower p.1 == lower l) = false) :
+    phSet (rows ++ [(l, x)]) l y = rows ++ [(l, y)] := by
+  induction rows with
+  | nil => simp [phSet]
+  | cons p ps ih =>
+    have hp := h p (by simp)
+    simp [phSet, hp, ih (fun q hq => h q (by simp [hq]))]
+
+theorem rstrip_id (l : Str) (h : (l.getLast?.map isWs).getD false = false) : rstrip l = l := by
+  have := rstrip_pad l 0 h
+  simpa using this
+
+theorem getLast?_append_ne (a b : Str) (hb : b ≠ []) : (a ++ b).getLast? = b.getLast? := by
+  rw [List.getLast?_append]
+  cases h : b.getLast? with
+  | none => exact absurd (List.getLast?_eq_none_iff.mp h) hb
+  | some x => rfl
+
+/-- the fold of `_parse_sequential` over the written row lines, abstracting how a line is laid out (`mk`) -/
+theorem phSequential_rows (cfg : PhCfg) (mk : Str × Str → Str) (ntax nchar : Nat) :
+    ∀ (R P : List (Str × Str)),
+      (∀ r ∈ R, r.2.length = nchar) → 0 < nchar → (P ++ R).length ≤ ntax →
+      ((P ++ R).map (fun r => lower r.1)).Nodup →
+      (∀ r ∈ R, rstrip (mk r) = mk r ∧ mk r ≠ []) →
+      (∀ r ∈ R, ∀ st : PhSt, phFind st.rows r.1 = none → st.processed + 1 ≤ st.ntax →
+        phTaxon cfg st (mk r) = .ok ({ st with rows := st.rows ++ [(r.1, [])], processed := st.processed + 1 }, r.1, r.2)) →
+      (∀ r ∈ R, phSeq cfg.al r.2 = .ok r.2) →
+      phSequential cfg ⟨P, P.length, ntax, nchar⟩ none (R.map mk ++ [[]]) = .ok ⟨P ++ R, (P ++ R).length, ntax, nchar⟩ := by
+  intro R
+  induction R with
+  | nil => intro P _ _ _ _ _ _ _; simp [phSequential, rstrip]
+  | cons r rs ih =>
+    intro P hlen hpos hnt hnd hmk htax hseq
+    have hpre : ∀ p ∈ P, (lower p.1 == lower r.1) = false := by
+      intro p hp
+      simp only [List.map_append, List.map_cons] at hnd
+      have := (List.nodup_append.mp hnd).2.2 (lower p.1) (List.mem_map.mpr ⟨p, hp, rfl⟩) (lower r.1) (by simp)
+      simpa using this
+    have h1 := hmk r (by simp)
+    have h2 := htax r (by simp) ⟨P, P.length, ntax, nchar⟩ (phFind_none P r.1 hpre)
+      (by simp at hnt ⊢; omega)
+    have h3 := hseq r (by simp)
+    have hl := hlen r (by simp)
+    have hne : (mk r).isEmpty = false := by
+      cases h : mk r with
+      | nil => exact absurd h h1.2
+      | cons _ _ => rfl
+    have hstep : phSequential cfg ⟨P, P.length, ntax, nchar⟩ none ((r :: rs).map mk ++ [[]])
+        = phSequential cfg ⟨P ++ [r], (P ++ [r]).length, ntax, nchar⟩ none (rs.map mk ++ [[]]) := by
+      simp only [List.map_cons, List.cons_append]
+      rw [phSequential]
+      simp only [h1.1, hne, h2, phAppend, h3, phFind_last P r.1 [] hpre, phSet_last P r.1 [] _ hpre]
+      simp [hl, phFind_last P r.1 r.2 hpre]
+    rw [hstep, ih (P ++ [r]) (fun x hx => hlen x (by simp [hx])) hpos (by simpa using hnt) (by simpa using hnd)
+      (fun x hx => hmk x (by simp [hx])) (fun x hx => htax x (by simp [hx])) (fun x hx => hseq x (by simp [hx]))]
+    simp
+
+end DendroModel.C09.Aux
+
+namespace DendroModel.C09.Aux
+
+theorem isBlank_of_isWs {c : Char} (h : isWs c = false) : isBlank c = false := by
+  unfold isWs at h; unfold isBlank
+  simp only [Bool.or_eq_false_iff] at h ⊢
+  exact ⟨h.1.1.1, h.1.1.2⟩
+
+theorem splitRun_two (two : Bool) (label rest : Str) (h : ∀ c ∈ label, isBlank c = false) :
+    splitRun two (label ++ ' ' :: ' ' :: rest) = some (label, rest.dropWhile isBlank) := by
+  induction label with
+  | nil => cases two <;> simp [splitRun, isBlank, List.dropWhile]
+  | cons c cs ih =>
+    have hc := h c (by simp)
+    simp [splitRun, hc, ih (fun x hx => h x (by simp [hx]))]
+
+theorem strip_id (l : Str) (h1 : (l.head?.map isWs).getD false = false) (h2 : (l.getLast?.map isWs).getD false = false) :
+    strip l = l := by
+  unfold strip; rw [lstrip_id l h1, rstrip_id l h2]
+
+theorem head_nows (l : Str) (h : ∀ c ∈ l, isWs c = false) : (l.head?.map isWs).getD false = false := by
+  cases l with
+  | nil => rfl
+  | cons c cs => simp [h c (by simp)]
+
+theorem last_nows (l : Str) (h : ∀ c ∈ l, isWs c = false) : (l.getLast?.map isWs).getD false = false := by
+  cases hl : l.getLast? with
+  | none => rfl
+  | some c => simp [h c (List.mem_of_getLast? hl)]
+
+theorem ljust_line (w : Nat) (wl seq : Str) :
+    ljust w wl ++ [' ', ' '] ++ seq = wl ++ ' ' :: ' ' :: (List.replicate (w - wl.length) ' ' ++ seq) := by
+  unfold ljust
+  have : ∀ k, List.replicate k ' ' ++ [' ', ' '] = ' ' :: ' ' :: List.replicate k ' ' := by
+    intro k
+    induction k with
+    | zero => rfl
+    | succ k ih => simp [List.replicate_succ, ih]
+  simp only [List.append_assoc]
+  rw [← List.append_assoc (List.replicate _ ' '), this]
+  simp
+
+theorem maxLen_const {α} (ls : List (List α)) (n : Nat) (h : ∀ l ∈ ls, l.length = n) (hne : ls ≠ []) : maxLen ls = n := by
+  induction ls with
+  | nil => exact absurd rfl hne
+  | cons l rest ih =>
+    cases rest with
+    | nil => simp [maxLen, h l (by simp)]
+    | cons l2 r2 =>
+      have := ih (fun x hx => h x (by simp [hx])) (by simp)
+      simp only [maxLen] at this ⊢
+      rw [h l (by simp)]; omega
+
+end DendroModel.C09.Aux
+
+namespace DendroModel.C09
+open DendroModel.C09.Aux
+
+/-- label as written (`spaces_to_underscores`) and as read (`underscores_to_spaces`) -/
+def wlab (spacesToUnderscores : Bool) (l : Str) : Str := if spacesToUnderscores then s2u l else l
+def rlab (underscoresToSpaces : Bool) (l : Str) : Str := if underscoresToSpaces then u2s l else l
+
+/-- a sequence the PHYLIP / FASTA writers emit by symbol: every symbol denotes itself and is not white space -/
+def SeqOk (al : List St) (s : Str) : Prop := ∀ c ∈ s, lookup al c = some c ∧ isWs c = false
+
+/-- label admissible for relaxed PHYLIP under the option pair: as written it is non-empty and free of white space,
+and the reader's underscore option maps it back -/
+def RelaxedLabelOk (w r : Bool) (l : Str) : Prop :=
+  (∀ c ∈ wlab w l, isWs c = false) ∧ wlab w l ≠ [] ∧ rlab r (wlab w l) = l
+
+/-- label admissible for strict PHYLIP: as written at most ten characters, non-empty, no white space at either end
+(inner blanks are fine), and the reader's underscore option maps it back -/
+def StrictLabelOk (w r : Bool) (l : Str) : Prop :=
+  (wlab w l).length ≤ 10 ∧ wlab w l ≠ [] ∧ ((wlab w l).head?.map isWs).getD false = false ∧
+  ((wlab w l).getLast?.map isWs).getD false = false ∧ rlab r (wlab w l) = l
+
+theorem phTaxon_relaxed (cfg : PhCfg) (hs : cfg.strict = false) (w : Bool) (width : Nat) (l seq : Str)
+    (hl : RelaxedLabelOk w cfg.underscoresToSpaces l) (hq : (seq.head?.map isBlank).getD false = false)
+    (st : PhSt) (hf : phFind st.rows l = none) (hc : st.processed + 1 ≤ st.ntax) :
+    phTaxon cfg st (ljust width (wlab w l) ++ [' ', ' '] ++ seq)
+      = .ok ({ st with rows := st.rows ++ [(l, [])], processed := st.processed + 1 }, l, seq) := by
+  obtain ⟨h1, h2, h3⟩ := hl
+  have hsp := splitRun_two cfg.multispace (wlab w l) (List.replicate (width - (wlab w l).length) ' ' ++ seq)
+    (fun c hc => isBlank_of_isWs (h1 c hc))
+  rw [dropWhile_replicate_blank _ _ hq] at hsp
+  have hstrip : strip (wlab w l) = wlab w l := strip_id _ (head_nows _ h1) (last_nows _ h1)
+  have hne : (wlab w l).isEmpty = false := by
+    cases h : wlab w l with
+    | nil => exact absurd h h2
+    | cons _ _ => rfl
+  have hr : (if cfg.underscoresToSpaces = true then u2s (wlab w l) else wlab w l) = l := by
+    simpa [rlab] using h3
+  have hc' : ¬ (st.processed + 1 > st.ntax) := by omega
+  unfold phTaxon
+  simp only [hs, ljust_line, hsp]
+  simp [hstrip, h2, hr, hf, hc']
+
+theorem phTaxon_strict (cfg : PhCfg) (hs : cfg.strict = true) (w : Bool) (l seq : Str)
+    (hl : StrictLabelOk w cfg.underscoresToSpaces l)
+    (st : PhSt) (hf : phFind st.rows l = none) (hc : st.processed + 1 ≤ st.ntax) :
+    phTaxon cfg st (ljust 10 ((wlab w l).take 10) ++ seq)
+      = .ok ({ st with rows := st.rows ++ [(l, [])], processed := st.processed + 1 }, l, seq) := by
+  obtain ⟨h0, h2, h4, h5, h3⟩ := hl
+  obtain ⟨ha, hb⟩ := phylip_strict_line_roundtrip_partial (wlab w l) seq h0 h4 h5
+  have hstrip : strip (wlab w l) = wlab w l := strip_id _ h4 h5
+  have hne : (wlab w l).isEmpty = false := by
+    cases h : wlab w l with
+    | nil => exact absurd h h2
+    | cons _ _ => rfl
+  have hr : (if cfg.underscoresToSpaces = true then u2s (wlab w l) else wlab w l) = l := by
+    simpa [rlab] using h3
+  have hc' : ¬ (st.processed + 1 > st.ntax) := by omega
+  unfold phTaxon
+  simp only [hs, if_true, ha, hb]
+  simp [hstrip, h2, hr, hf, hc']
+
+end DendroModel.C09
+
+namespace DendroModel.C09
+open DendroModel.C09.Aux
+
+theorem phSeq_ok (al : List St) (s : Str) (h : SeqOk al s) : phSeq al s = .ok s :=
+  phylip_sequence_roundtrip al s (fun c hc => ⟨(h c hc).1, isBlank_of_isWs (h c hc).2⟩)
+
+/-- reading the header the writer composes -/
+theorem phRead_header (cfg : PhCfg) (n k : Nat) (body : List Str) (hn : n ≠ 0) (hk : k ≠ 0) (hb : 2 ≤ body.length) :
+    phRead cfg ((natStr n ++ [' '] ++ natStr k) :: body) =
+      match (if cfg.interleaved then phInterleaved cfg ⟨[], 0, n, k⟩ false (-1) body else phSequential cfg ⟨[], 0, n, k⟩ none body) with
+      | .error e => .error e
+      | .ok st => if st.processed != n then .error .count else .ok st.rows := by
+  have hw := wsWords_two (natStr n) (natStr k) (fun c hc => isWs_digit c (natStr_digits n c hc))
+    (fun c hc => isWs_digit c (natStr_digits k c hc)) (natStr_ne_nil n) (natStr_ne_nil k)
+  unfold phRead
+  have hl : ¬ ((natStr n ++ [' '] ++ natStr k) :: body).length ≤ 2 := by simp; omega
+  simp only [hl, if_false, hw, allDigits_natStr, digitsVal_natStr]
+  simp [hn, hk]
+  rfl
+
+/-- **whole file, relaxed PHYLIP (sequential).**  For every matrix with at least one row, rows of one positive length,
+symbols that denote themselves, labels distinct up to case and admissible for the option pair
+(`spaces_to_underscores` on writing, `underscores_to_spaces` / `multispace_delimiter` on reading — any combination for
+which `RelaxedLabelOk` holds), reading the lines the writer produces gives back the same taxa in the same order with
+the same sequences. -/
+theorem phylip_relaxed_roundtrip (cfg : PhCfg) (w : Bool) (rows : List (Str × Str))
+    (hs : cfg.strict = false) (hi : cfg.interleaved = false) (hne : rows ≠ [])
+    (hlen : ∀ r ∈ rows, r.2.length = maxLen (rows.map (·.2))) (hpos : 0 < maxLen (rows.map (·.2)))
+    (hnd : (rows.map (fun r => lower r.1)).Nodup)
+    (hlab : ∀ r ∈ rows, RelaxedLabelOk w cfg.underscoresToSpaces r.1) (hseq : ∀ r ∈ rows, SeqOk cfg.al r.2) :
+    phRead cfg (phWrite false w rows ++ [[]]) = .ok rows := by
+  let ml := maxLen (rows.map (fun r => wlab w r.1))
+  let mk : Str × Str → Str := fun r => ljust ml (wlab w r.1) ++ [' ', ' '] ++ r.2
+  have hw : phWrite false w rows ++ [[]]
+      = (natStr rows.length ++ [' '] ++ natStr (maxLen (rows.map (·.2)))) :: (rows.map mk ++ [[]]) := by
+    simp [phWrite, mk, ml, wlab, Function.comp_def]
+  have hrl : rows.length ≠ 0 := by cases rows with
+    | nil => exact absurd rfl hne
+    | cons _ _ => simp
+  rw [hw, phRead_header cfg _ _ _ hrl (by omega) (by cases rows with
+    | nil => exact absurd rfl hne
+    | cons _ _ => simp)]
+  have hnonempty : ∀ r ∈ rows, r.2 ≠ [] := by
+    intro r hr h; have := hlen r hr; rw [h] at this; simp at this; omega
+  have hfold := phSequential_rows cfg mk rows.length (maxLen (rows.map (·.2))) rows [] hlen hpos (by simp) (by simpa using hnd)
+    (by
+      intro r hr
+      have hq := hseq r hr
+      have hne' := hnonempty r hr
+      constructor
+      · apply rstrip_id
+        rw [show mk r = (ljust ml (wlab w r.1) ++ [' ', ' ']) ++ r.2 from rfl, getLast?_append_ne _ _ hne']
+        exact last_nows _ (fun c hc => (hq c hc).2)
+      · intro h
+        have := congrArg List.length h
+        simp [mk] at this)
+    (by
+      intro r hr st hf hc
+      exact phTaxon_relaxed cfg hs w ml r.1 r.2 (hlab r hr)
+        (by have := head_nows r.2 (fun c hc => (hseq r hr c hc).2)
+            cases h : r.2 with
+            | nil => rfl
+            | cons c cs => simp [isBlank_of_isWs ((hseq r hr) c (by simp [h])).2]) st hf hc)
+    (fun r hr => phSeq_ok cfg.al r.2 (hseq r hr))
+  simp only [hi, Bool.false_eq_true, if_false]
+  have h0 : (⟨[], 0, rows.length, maxLen (rows.map (·.2))⟩ : PhSt) = ⟨[], ([] : List (Str × Str)).length, rows.length, maxLen (rows.map (·.2))⟩ := rfl
+  rw [h0, hfold]
+  simp
+
+/-- **whole file, strict PHYLIP (sequential).**  Same statement for the ten-column layout, for labels of at most ten
+characters without white space at either end (`StrictLabelOk`; inner blanks allowed). -/
+theorem phylip_strict_roundtrip (cfg : PhCfg) (w : Bool) (rows : List (Str × Str))
+    (hs : cfg.strict = true) (hi : cfg.interleaved = false) (hne : rows ≠ [])
+    (hlen : ∀ r ∈ rows, r.2.length = maxLen (rows.map (·.2))) (hpos : 0 < maxLen (rows.map (·.2)))
+    (hnd : (rows.map (fun r => lower r.1)).Nodup)
+    (hlab : ∀ r ∈ rows, StrictLabelOk w cfg.underscoresToSpaces r.1) (hseq : ∀ r ∈ rows, SeqOk cfg.al r.2) :
+    phRead cfg (phWrite true w rows ++ [[]]) = .ok rows := by
+  let mk : Str × Str → Str := fun r => ljust 10 ((wlab w r.1).take 10) ++ r.2
+  have hml : maxLen (rows.map (fun r => ljust 10 ((wlab w r.1).take 10))) = 10 := by
+    apply maxLen_const
+    · intro l hl
+      obtain ⟨r, _, rfl⟩ := List.mem_map.mp hl
+      simp [ljust]; omega
+    · cases rows with
+      | nil => exact absurd rfl hne
+      | cons _ _ => simp
+  have hid : ∀ x : Str, x.length = 10 → ljust 10 x = x := by
+    intro x hx; simp [ljust, hx]
+  have hlj : ∀ r : Str × Str, ljust 10 (ljust 10 ((wlab w r.1).take 10)) = ljust 10 ((wlab w r.1).take 10) := by
+    intro r
+    apply hid
+    simp [ljust]; omega
+  have hw : phWrite true w rows ++ [[]]
+      = (natStr rows.length ++ [' '] ++ natStr (maxLen (rows.map (·.2)))) :: (rows.map mk ++ [[]]) := by
+    show ((natStr rows.length ++ [' '] ++ natStr (maxLen (rows.map (·.2)))) ::
+      rows.map (fun r => ljust (maxLen (rows.map (fun r => ljust 10 ((wlab w r.1).take 10))))
+        (ljust 10 ((wlab w r.1).take 10)) ++ [] ++ r.2)) ++ [[]] = _
+    rw [hml]
+    have : rows.map (fun r => ljust 10 (ljust 10 ((wlab w r.1).take 10)) ++ [] ++ r.2) = rows.map mk := by
+      apply List.map_congr_left
+      intro r _
+      rw [hlj]; simp [mk]
+    rw [this]; rfl
+  have hrl : rows.length ≠ 0 := by cases rows with
+    | nil => exact absurd rfl hne
+    | cons _ _ => simp
+  rw [hw, phRead_header cfg _ _ _ hrl (by omega) (by cases rows with
+    | nil => exact absurd rfl hne
+    | cons _ _ => simp)]
+  have hnonempty : ∀ r ∈ rows, r.2 ≠ [] := by
+    intro r hr h; have := hlen r hr; rw [h] at this; simp at this; omega
+  have hfold := phSequential_rows cfg mk rows.length (maxLen (rows.map (·.2))) rows [] hlen hpos (by simp) (by simpa using hnd)
+    (by
+      intro r hr
+      have hq := hseq r hr
+      have hne' := hnonempty r hr
+      constructor
+      · apply rstrip_id
+        rw [show mk r = ljust 10 ((wlab w r.1).take 10) ++ r.2 from rfl, getLast?_append_ne _ _ hne']
+        exact last_nows _ (fun c hc => (hq c hc).2)
+      · intro h
+        have := congrArg List.length h
+        simp [mk] at this
+        exact hne' this.2)
+    (fun r hr st hf hc => phTaxon_strict cfg hs w r.1 r.2 (hlab r hr) st hf hc)
+    (fun r hr => phSeq_ok cfg.al r.2 (hseq r hr))
+  simp only [hi, Bool.false_eq_true, if_false]
+  have h0 : (⟨[], 0, rows.length, maxLen (rows.map (·.2))⟩ : PhSt) = ⟨[], ([] : List (Str × Str)).length, rows.length, maxLen (rows.map (·.2))⟩ := rfl
+  rw [h0, hfold]
+  simp
+
+end DendroModel.C09
+
+
+/-! ## whole-file FASTA -/
+
+namespace DendroModel.C09.Aux
+
+theorem rstrip_id0 (l : Str) (h : (l.getLast?.map isWs).getD false = false) : rstrip l = l := by
+  have := rstrip_pad l 0 h
+  simpa using this
+
+theorem strip_id0 (l : Str) (h1 : (l.head?.map isWs).getD false = false) (h2 : (l.getLast?.map isWs).getD false = false) :
+    strip l = l := by
+  unfold strip; rw [lstrip_id l h1, rstrip_id0 l h2]
+
+theorem strip_id' (l : Str) (h : ∀ c ∈ l, isWs c = false) : strip l = l := by
+  apply strip_id0
+  · cases l with
+    | nil => rfl
+    | cons c cs => simp [h c (by simp)]
+  · cases hl : l.getLast? with
+    | none => rfl
+    | some c => simp [h c (List.mem_of_getLast? hl)]
+
+theorem splitLines_ne_nil (s : Str) : splitLines s ≠ [] := by
+  induction s with
+  | nil => simp [splitLines]
+  | cons c cs ih =>
+    unfold splitLines
+    cases h : splitLines cs with
+    | nil => simp
+    | cons l ls => by_cases hc : c = '\n' <;> simp [hc]
+
+/-- prepend characters to the first line -/
+def preFirst (pre : Str) : List Str → List Str
+  | [] => [pre]
+  | l :: ls => (pre ++ l) :: ls
+
+theorem splitLines_cons_nl (s : Str) : splitLines ('\n' :: s) = [] :: splitLines s := by
+  rw [splitLines]
+  cases h : splitLines s with
+  | nil => exact absurd h (splitLines_ne_nil s)
+  | cons l ls => simp
+
+theorem splitLines_cons_ne (c : Char) (s : Str) (hc : c ≠ '\n') : splitLines (c :: s) = preFirst [c] (splitLines s) := by
+  rw [splitLines]
+  cases h : splitLines s with
+  | nil => exact absurd h (splitLines_ne_nil s)
+  | cons l ls => simp [hc, preFirst]
+
+theorem preFirst_preFirst (a b : Str) (ls : List Str) (h : ls ≠ []) : preFirst a (preFirst b ls) = preFirst (a ++ b) ls := by
+  cases ls with
+  | nil => exact absurd rfl h
+  | cons l r => simp [preFirst]
+
+theorem splitLines_line (a rest : Str) (h : ∀ c ∈ a, c ≠ '\n') : splitLines (a ++ '\n' :: rest) = a :: splitLines rest := by
+  induction a with
+  | nil => simp [splitLines_cons_nl]
+  | cons c cs ih =>
+    rw [List.cons_append, splitLines_cons_ne c _ (h c (by simp)), ih (fun x hx => h x (by simp [hx]))]
+    simp [preFirst]
+
+theorem phSet_same (rows : List (Str × Str)) (l x : Str) (h : phFind rows l = some x) : phSet rows l x = rows := by
+  induction rows with
+  | nil => simp [phFind] at h
+  | cons p ps ih =>
+    unfold phFind at h
+    by_cases hp : (lower p.1 == lower l) = true
+    · simp [List.find?, hp] at h
+      simp [phSet, hp, ← h]
+    · have hp' : (lower p.1 == lower l) = false := by simpa using hp
+      have h' : phFind ps l = some x := by unfold phFind; simpa [List.find?, hp'] using h
+      simp [phSet, hp', ih h']
+
+theorem phFind_phSet (rows : List (Str × Str)) (l x y : Str) (h : phFind rows l = some x) :
+    phFind (phSet rows l y) l = some y := by
+  induction rows with
+  | nil => simp [phFind] at h
+  | cons p ps ih =>
+    unfold phFind at h
+    by_cases hp : (lower p.1 == lower l) = true
+    · simp [phSet, hp, phFind, List.find?]
+    · have hp' : (lower p.1 == lower l) = false := by simpa using hp
+      have h' : phFind ps l = some x := by unfold phFind; simpa [List.find?, hp'] using h
+      have := ih h'
+      unfold phFind at this ⊢
+      simp [phSet, hp', List.find?, this]
+
+theorem phSet_phSet (rows : List (Str × Str)) (l x y : Str) : phSet (phSet rows l x) l y = phSet rows l y := by
+  induction rows with
+  | nil => simp [phSet]
+  | cons p ps ih =>
+    by_cases hp : (lower p.1 == lower l) = true
+    · simp [phSet, hp]
+    · have hp' : (lower p.1 == lower l) = false := by simpa using hp
+      simp [phSet, hp', ih]
+
+end DendroModel.C09.Aux
+
+namespace DendroModel.C09
+open DendroModel.C09.Aux
+
+/-- a symbol the FASTA writer emits and the reader takes back: denotes itself, not white space, not `>` -/
+def FaSymOk (al : List St) (c : Char) : Prop := lookup al c = some c ∧ isWs c = false ∧ c ≠ '>'
+
+/-- a FASTA name: survives `strip`, has no line break -/
+def FaNameOk (n : Str) : Prop :=
+  (n.head?.map isWs).getD false = false ∧ (n.getLast?.map isWs).getD false = false ∧ ∀ c ∈ n, c ≠ '\n'
+
+end DendroModel.C09
+
+namespace DendroModel.C09.Aux
+open DendroModel.C09
+
+theorem faSeq_ok (al : List St) (s : Str) (h : ∀ c ∈ s, FaSymOk al c) : faSeq al s = .ok s := by
+  induction s with
+  | nil => rfl
+  | cons c cs ih =>
+    have hc := h c (by simp)
+    simp [faSeq, hc.1, hc.2.1, ih (fun x hx => h x (by simp [hx]))]
+
+/-- one sequence line (possibly empty) of the current record -/
+theorem faRead_line (al : List St) (rows : List (Str × Str)) (lab acc pre : Str) (rest : List Str)
+    (hf : phFind rows lab = some acc) (hp : ∀ c ∈ pre, FaSymOk al c) :
+    faRead al rows (some lab) (pre :: rest) = faRead al (phSet rows lab (acc ++ pre)) (some lab) rest := by
+  have hstrip : strip pre = pre :=
+    strip_id' pre (fun c hc => (hp c hc).2.1)
+  cases pre with
+  | nil =>
+    rw [faRead]
+    simp [strip, lstrip, rstrip, phSet_same rows lab acc hf]
+  | cons c cs =>
+    have hc := hp c (by simp)
+    rw [faRead]
+    simp only [hstrip]
+    have hne : (c :: cs).isEmpty = false := rfl
+    simp only [hne, Bool.false_eq_true, if_false]
+    split
+    · rename_i name heq
+      simp at heq
+      exact absurd heq.1 hc.2.2
+    · simp [faSeq_ok al (c :: cs) hp, hf]
+
+end DendroModel.C09.Aux
+
+namespace DendroModel.C09.Aux
+open DendroModel.C09
+
+def symbolsOf (t : Str) : Str := t.filter (fun c => c != '\n')
+
+theorem isWs_nl_of_ok {al : List St} {c : Char} (h : FaSymOk al c) : c ≠ '\n' := by
+  intro he; subst he
+  have := h.2.1
+  simp [isWs] at this
+
+/-- the lines of a block of sequence text (symbols and line breaks) of the current record, up to its closing line break -/
+theorem faRead_block (al : List St) (lab : Str) (u : Str) :
+    ∀ (t : Str) (rows : List (Str × Str)) (acc pre : Str),
+      (∀ c ∈ t, c = '\n' ∨ FaSymOk al c) → (∀ c ∈ pre, FaSymOk al c) → phFind rows lab = some acc →
+      faRead al rows (some lab) (preFirst pre (splitLines (t ++ '\n' :: u)))
+        = faRead al (phSet rows lab (acc ++ pre ++ symbolsOf t)) (some lab) (splitLines u) := by
+  intro t
+  induction t with
+  | nil =>
+    intro rows acc pre _ hp hf
+    simp only [List.nil_append, splitLines_cons_nl, preFirst, List.append_nil, symbolsOf, List.filter_nil]
+    exact faRead_line al rows lab acc pre _ hf hp
+  | cons c cs ih =>
+    intro rows acc pre ht hp hf
+    rcases ht c (by simp) with hc | hc
+    · subst hc
+      simp only [List.cons_append, splitLines_cons_nl, preFirst, List.append_nil]
+      rw [faRead_line al rows lab acc pre _ hf hp]
+      have hcs := splitLines_ne_nil (cs ++ '\n' :: u)
+      have : splitLines (cs ++ '\n' :: u) = preFirst [] (splitLines (cs ++ '\n' :: u)) := by
+        cases h : splitLines (cs ++ '\n' :: u) with
+        | nil => exact absurd h hcs
+        | cons l ls => simp [preFirst]
+      rw [this, ih (phSet rows lab (acc ++ pre)) (acc ++ pre) [] (fun x hx => ht x (by simp [hx])) (by simp)
+        (phFind_phSet rows lab acc _ hf), phSet_phSet]
+      simp [symbolsOf]
+    · have hne := isWs_nl_of_ok hc
+      simp only [List.cons_append]
+      rw [splitLines_cons_ne c _ hne, preFirst_preFirst _ _ _ (splitLines_ne_nil _)]
+      rw [ih rows acc (pre ++ [c]) (fun x hx => ht x (by simp [hx]))
+        (by intro x hx; simp at hx; rcases hx with hx | hx; exact hp x hx; exact hx ▸ hc) hf]
+      have : symbolsOf (c :: cs) = c :: symbolsOf cs := by simp [symbolsOf, hne]
+      simp [this]
+
+theorem wrap70_block (al : List St) (s : Str) (h : ∀ c ∈ s, FaSymOk al c) :
+    ∀ col, (∀ c ∈ wrap70 col s, c = '\n' ∨ FaSymOk al c) ∧ symbolsOf (wrap70 col s) = s := by
+  induction s with
+  | nil => intro col; simp [wrap70, symbolsOf]
+  | cons c cs ih =>
+    intro col
+    have hc := h c (by simp)
+    have hne := isWs_nl_of_ok hc
+    by_cases h70 : col = 70
+    · have e : wrap70 col (c :: cs) = '\n' :: c :: wrap70 1 cs := by simp [wrap70, h70]
+      obtain ⟨h1, h2⟩ := ih (fun x hx => h x (by simp [hx])) 1
+      rw [e]
+      refine ⟨?_, ?_⟩
+      · intro x hx
+        simp at hx
+        rcases hx with hx | hx | hx
+        · exact Or.inl hx
+        · exact Or.inr (hx ▸ hc)
+        · exact h1 x hx
+      · simp [symbolsOf, hne] at h2 ⊢; exact h2
+    · have e : wrap70 col (c :: cs) = c :: wrap70 (col + 1) cs := by simp [wrap70, h70]
+      obtain ⟨h1, h2⟩ := ih (fun x hx => h x (by simp [hx])) (col + 1)
+      rw [e]
+      refine ⟨?_, ?_⟩
+      · intro x hx
+        simp at hx
+        rcases hx with hx | hx
+        · exact Or.inr (hx ▸ hc)
+        · exact h1 x hx
+      · simp [symbolsOf, hne] at h2 ⊢; exact h2
+
+end DendroModel.C09.Aux
+
+namespace DendroModel.C09
+open DendroModel.C09.Aux
+
+/-- the records of the writer's text, read one after the other -/
+theorem fasta_fold (al : List St) : ∀ (R P : List (Str × Str)) (cur : Option Str),
+    ((P ++ R).map (fun r => lower r.1)).Nodup →
+    (∀ r ∈ R, FaNameOk r.1 ∧ r.2 ≠ [] ∧ ∀ c ∈ r.2, FaSymOk al c) →
+    (∀ lab, cur = some lab → ∃ q, phFind P lab = some q ∧ q ≠ []) →
+    faRead al P cur (splitLines (faWrite R)) = .ok (P ++ R) := by
+  intro R
+  induction R with
+  | nil =>
+    intro P cur _ _ _
+    simp [faWrite, splitLines, faRead, strip, lstrip, rstrip]
+  | cons r rs ih =>
+    intro P cur hnd hok hcur
+    obtain ⟨⟨hn1, hn2, hn3⟩, hne, hsym⟩ := hok r (by simp)
+    have hpre : ∀ p ∈ P, (lower p.1 == lower r.1) = false := by
+      intro p hp
+      simp only [List.map_append, List.map_cons] at hnd
+      have := (List.nodup_append.mp hnd).2.2 (lower p.1) (List.mem_map.mpr ⟨p, hp, rfl⟩) (lower r.1) (by simp)
+      simpa using this
+    have hfw : faWrite (r :: rs) = ('>' :: r.1) ++ '\n' :: (wrap70 0 r.2 ++ '\n' :: ('\n' :: faWrite rs)) := by
+      simp [faWrite]
+    have hhead : ∀ c ∈ ('>' :: r.1), c ≠ '\n' := by
+      intro c hc
+      simp at hc
+      rcases hc with hc | hc
+      · subst hc; decide
+      · exact hn3 c hc
+    rw [hfw, splitLines_line _ _ hhead]
+    -- the header line
+    have hstrip : strip ('>' :: r.1) = '>' :: r.1 := by
+      apply strip_id0
+      · simp [isWs]
+      · cases hl : r.1 with
+        | nil => simp [isWs]
+        | cons c cs =>
+          have : ('>' :: c :: cs).getLast? = (c :: cs).getLast? := by simp [List.getLast?_cons_cons]
+          rw [this, ← hl]; exact hn2
+    have hsn : strip r.1 = r.1 := strip_id0 _ hn1 hn2
+    have hfind : phFind P r.1 = none := by
+      unfold phFind
+      rw [List.find?_eq_none.mpr (by intro p hp; simp [hpre p hp])]; rfl
+    have hcheck : ((cur.bind (phFind P)).map (·.isEmpty) == some true) = false := by
+      cases cur with
+      | none => rfl
+      | some lab =>
+        obtain ⟨q, hq, hq'⟩ := hcur lab rfl
+        cases q with
+        | nil => exact absurd rfl hq'
+        | cons _ _ => simp [hq]
+    have hstep1 : faRead al P cur (('>' :: r.1) :: splitLines (wrap70 0 r.2 ++ '\n' :: ('\n' :: faWrite rs)))
+        = faRead al (P ++ [(r.1, [])]) (some r.1) (splitLines (wrap70 0 r.2 ++ '\n' :: ('\n' :: faWrite rs))) := by
+      conv => lhs; unfold faRead
+      simp only [hstrip]
+      simp [hsn, hfind]
+      intro h
+      exfalso
+      cases cur with
+      | none => simp at h
+      | some lab =>
+        obtain ⟨q, hq, hq'⟩ := hcur lab rfl
+        cases q with
+        | nil => exact hq' rfl
+        | cons _ _ => simp [hq] at h
+    rw [hstep1]
+    -- the sequence block
+    obtain ⟨hb1, hb2⟩ := wrap70_block al r.2 hsym 0
+    have hpf : splitLines (wrap70 0 r.2 ++ '\n' :: ('\n' :: faWrite rs))
+        = preFirst [] (splitLines (wrap70 0 r.2 ++ '\n' :: ('\n' :: faWrite rs))) := by
+      cases h : splitLines (wrap70 0 r.2 ++ '\n' :: ('\n' :: faWrite rs)) with
+      | nil => exact absurd h (splitLines_ne_nil _)
+      | cons l ls => simp [preFirst]
+    have hlast : phFind (P ++ [(r.1, [])]) r.1 = some [] := by
+      have : ∀ (rows : List (Str × Str)), (∀ p ∈ rows, (lower p.1 == lower r.1) = false) →
+          phFind (rows ++ [(r.1, ([] : Str))]) r.1 = some [] := by
+        intro rows h
+        induction rows with
+        | nil => simp [phFind]
+        | cons p ps ih2 =>
+          have hp := h p (by simp)
+          have := ih2 (fun q hq => h q (by simp [hq]))
+          unfold phFind at this ⊢
+          simp only [List.cons_append, List.find?_cons, hp]
+          exact this
+      exact this P hpre
+    have hsetlast : phSet (P ++ [(r.1, [])]) r.1 r.2 = P ++ [r] := by
+      have : ∀ (rows : List (Str × Str)), (∀ p ∈ rows, (lower p.1 == lower r.1) = false) →
+          phSet (rows ++ [(r.1, ([] : Str))]) r.1 r.2 = rows ++ [r] := by
+        intro rows h
+        induction rows with
+        | nil => simp [phSet]
+        | cons p ps ih2 =>
+          have hp := h p (by simp)
+          simp [phSet, hp, ih2 (fun q hq => h q (by simp [hq]))]
+      exact this P hpre
+    rw [hpf, faRead_block al r.1 ('\n' :: faWrite rs) (wrap70 0 r.2) (P ++ [(r.1, [])]) [] [] hb1 (by simp) hlast]
+    simp only [List.nil_append, List.append_nil, hb2, hsetlast, splitLines_cons_nl]
+    -- the blank line closing the record
+    have hblank : faRead al (P ++ [r]) (some r.1) ([] :: splitLines (faWrite rs))
+        = faRead al (P ++ [r]) (some r.1) (splitLines (faWrite rs)) := by
+      rw [faRead]; simp [strip, lstrip, rstrip]
+    rw [hblank, ih (P ++ [r]) (some r.1) (by simpa using hnd) (fun x hx => hok x (by simp [hx]))
+      (by
+        intro lab hl
+        cases hl
+        refine ⟨r.2, ?_, hne⟩
+        have := phFind_phSet (P ++ [(r.1, [])]) r.1 [] r.2 hlast
+        rwa [hsetlast] at this)]
+    simp
+
+/-- **whole file, FASTA.**  For every matrix whose names survive `strip` and have no line break, are distinct up to case,
+and whose sequences are non-empty and made of symbols that denote themselves (not white space, not `>`), reading the
+text the writer produces (names on `>` lines, sequences wrapped every 70 symbols, two line breaks after each record)
+line by line gives back the same taxa in the same order with the same sequences. -/
+theorem fasta_roundtrip (al : List St) (rows : List (Str × Str))
+    (hnd : (rows.map (fun r => lower r.1)).Nodup)
+    (hok : ∀ r ∈ rows, FaNameOk r.1 ∧ r.2 ≠ [] ∧ ∀ c ∈ r.2, FaSymOk al c) :
+    faRead al [] none (splitLines (faWrite rows)) = .ok rows := by
+  have := fasta_fold al rows [] none (by simpa using hnd) hok (by intro lab h; cases h)
+  simpa using this
+
+end DendroModel.C09
+
+namespace DendroModel.C09
+open DendroModel.Alphabets
+/-! ### non-vacuity of the whole-file statements -/
+example : RelaxedLabelOk true true "Homo sapiens".toList := by unfold RelaxedLabelOk; decide
+example : RelaxedLabelOk false false "t1".toList := by unfold RelaxedLabelOk; decide
+example : StrictLabelOk false false "Mus m 2".toList := by unfold StrictLabelOk; decide
+example : SeqOk (mkStates dna) "AC-?N".toList := by unfold SeqOk; decide
+example : FaNameOk "a b>c".toList ∧ ∀ c ∈ "ACGT-".toList, FaSymOk (mkStates dna) c := by
+  unfold FaNameOk FaSymOk; decide
+example : (phRead ⟨mkStates dna, false, false, true, true⟩
+    (phWrite false true [("Homo sapiens".toList, "AC-".toList), ("t2".toList, "?NR".toList)] ++ [[]])).toOption
+    = some [("Homo sapiens".toList, "AC-".toList), ("t2".toList, "?NR".toList)] := by decide
+example : (faRead (mkStates dna) [] none (splitLines (faWrite [("a b".toList, "ACGT".toList), ("c".toList, "-".toList)]))).toOption
+    = some [("a b".toList, "ACGT".toList), ("c".toList, "-".toList)] := by decide
+end DendroModel.C09
+
+/-! ## STANDARD FORMAT for arbitrary symbol strings -/
+
+namespace DendroModel.C09.Aux
+
+def tokStep (c : Char) (r : List Str) : List Str :=
+  if isWs c then [] :: r
+  else if captured.contains c then [] :: [c] :: [] :: r
+  else match r with
+    | [] => [[c]]
+    | t :: ts => (c :: t) :: ts
+
+theorem tokens_foldr (s : Str) : tokens s = s.foldr tokStep [] := by
+  induction s with
+  | nil => rfl
+  | cons c cs ih => simp only [tokens, List.foldr_cons, tokStep, ih] <;> rfl
+
+theorem tokens_append (a b : Str) : tokens (a ++ b) = a.foldr tokStep (tokens b) := by
+  rw [tokens_foldr, List.foldr_append, ← tokens_foldr]
+
+theorem foldr_plain (w : Str) (t : Str) (ts : List Str) (h : ∀ c ∈ w, isWs c = false ∧ captured.contains c = false) :
+    w.foldr tokStep (t :: ts) = (w ++ t) :: ts := by
+  induction w with
+  | nil => rfl
+  | cons c cs ih =>
+    have hc := h c (by simp)
+    have h2 : c ∉ captured := by simpa using hc.2
+    simp [List.foldr, ih (fun x hx => h x (by simp [hx])), tokStep, hc.1, h2]
+
+theorem mem_insertC (x c : Char) (l : List Char) : x ∈ insertC c l → x = c ∨ x ∈ l := by
+  induction l with
+  | nil => simp [insertC]
+  | cons d ds ih =>
+    unfold insertC
+    split
+    · simp
+    · split
+      · intro h; exact Or.inr h
+      · intro h
+        simp at h
+        rcases h with h | h
+        · exact Or.inr (by simp [h])
+        · rcases ih h with h | h
+          · exact Or.inl h
+          · exact Or.inr (by simp [h])
+
+theorem mem_canonSet (x : Char) (l : List Char) : x ∈ canonSet l → x ∈ l := by
+  induction l with
+  | nil => simp [canonSet]
+  | cons c cs ih =>
+    intro h
+    unfold canonSet at h
+    simp only [List.foldr_cons] at h
+    rcases mem_insertC x c _ h with h | h
+    · simp [h]
+    · exact List.mem_cons_of_mem _ (ih h)
+
+theorem insertC_ne_nil (c : Char) (l : List Char) : insertC c l ≠ [] := by
+  cases l with
+  | nil => simp [insertC]
+  | cons d ds =>
+    unfold insertC
+    split
+    · simp
+    · split <;> simp
+
+end DendroModel.C09.Aux
+
+namespace DendroModel.C09
+open DendroModel.C09.Aux DendroModel.Alphabets
+
+/-- symbols a STANDARD alphabet can declare in `SYMBOLS="…"`: not white space, not a NEXUS punctuation character, and
+unchanged by upper-casing (the reader upper-cases the FORMAT statement) -/
+def SymsOk (syms : Str) : Prop := ∀ c ∈ syms, isWs c = false ∧ captured.contains c = false ∧ c.toUpper = c
+
+theorem format_standard_text (syms : Str) :
+    "FORMAT ".toList ++ formatOf "standard".toList (specStd syms (some '-') (some '?')) ++ [';']
+      = "FORMAT DATATYPE=STANDARD SYMBOLS=\"".toList ++ (canonSet (syms ++ ['-']) ++ "\" MISSING=?;".toList) := by
+  have hfind : formatTerms.find? (fun p => p.1.toList == "standard".toList) = none := by decide
+  unfold formatOf
+  rw [hfind]
+  simp [specStd, fundAll]
+
+theorem parse_symbols_text (S : Str)
+    (hS : ∀ c ∈ S, isWs c = false ∧ captured.contains c = false ∧ c.toUpper = c) (hne : S ≠ []) :
+    parseFormatText ("FORMAT DATATYPE=STANDARD SYMBOLS=\"".toList ++ (S ++ "\" MISSING=?;".toList))
+      = some ⟨"standard".toList, S, ['-'], ['?'], ['.'], false⟩ := by
+  have hup : upper S = S := by
+    unfold upper
+    clear hne
+    induction S with
+    | nil => rfl
+    | cons c cs ih => simp [(hS c (by simp)).2.2, ih (fun x hx => hS x (by simp [hx]))]
+  have hupper : upper ("FORMAT DATATYPE=STANDARD SYMBOLS=\"".toList ++ (S ++ "\" MISSING=?;".toList))
+      = "FORMAT DATATYPE=STANDARD SYMBOLS=\"".toList ++ (S ++ "\" MISSING=?;".toList) := by
+    have h1 : upper "FORMAT DATATYPE=STANDARD SYMBOLS=\"".toList = "FORMAT DATATYPE=STANDARD SYMBOLS=\"".toList := by decide
+    have h2 : upper "\" MISSING=?;".toList = "\" MISSING=?;".toList := by decide
+    have : ∀ a b : Str, upper (a ++ b) = upper a ++ upper b := by intro a b; simp [upper]
+    rw [this, this, h1, h2, hup]
+  have htail : tokens "\" MISSING=?;".toList
+      = [[], ['"'], [], [], "MISSING".toList, ['='], [], "?".toList, [';'], []] := by decide
+  have htok : toks ("FORMAT DATATYPE=STANDARD SYMBOLS=\"".toList ++ (S ++ "\" MISSING=?;".toList))
+      = ["FORMAT".toList, "DATATYPE".toList, ['='], "STANDARD".toList, "SYMBOLS".toList, ['='], ['"'], S, ['"'],
+         "MISSING".toList, ['='], "?".toList, [';']] := by
+    unfold toks
+    rw [tokens_append, tokens_append, htail, foldr_plain S _ _ (fun c hc => ⟨(hS c hc).1, (hS c hc).2.1⟩)]
+    have hSe : S.isEmpty = false := by
+      cases S with
+      | nil => exact absurd rfl hne
+      | cons _ _ => rfl
+    simp [List.foldr, tokStep, isWs, captured, hSe]
+  have hq : (S == ['"']) = false := by
+    cases S with
+    | nil => rfl
+    | cons c cs =>
+      have := (hS c (by simp)).2.1
+      have hc : c ≠ '"' := by intro he; subst he; simp [captured] at this
+      simp [hc]
+  have hinf : isInfix S [] = false := by
+    cases S with
+    | nil => exact absurd rfl hne
+    | cons c cs => simp [isInfix]
+  unfold parseFormatText
+  rw [hupper, htok]
+  have hloop : ∀ rest : List Str, symbolsLoop [] (S :: ['"'] :: rest) = some (S, rest) := by
+    intro rest
+    simp [symbolsLoop, hq, hinf]
+  have step1 : parseFormat 14 Fmt.init
+      ["FORMAT".toList, "DATATYPE".toList, ['='], "STANDARD".toList, "SYMBOLS".toList, ['='], ['"'], S, ['"'],
+         "MISSING".toList, ['='], "?".toList, [';']]
+      = match symbolsLoop [] (S :: ['"'] :: ["MISSING".toList, ['='], "?".toList, [';']]) with
+        | some (s, r) => parseFormat 11 { Fmt.init with dataType := "standard".toList, symbols := s } r
+        | none => none := rfl
+  show parseFormat 14 Fmt.init _ = _
+  rw [step1, hloop]
+  rfl
+
+/-- **STANDARD FORMAT, arbitrary symbol strings.**  For every symbol string of a custom standard alphabet (`SymsOk`), the
+FORMAT statement the writer composes (`DATATYPE=STANDARD SYMBOLS="<symbols and gap>" MISSING=?`) is tokenised and parsed
+by `_parse_format_statement` to exactly: type `standard`, the same symbol set, gap `-`, missing `?`, match character
+`.`, not interleaved. -/
+theorem format_standard_roundtrip (syms : Str) (h : SymsOk syms) :
+    parseFormatText ("FORMAT ".toList ++ formatOf "standard".toList (specStd syms (some '-') (some '?')) ++ [';'])
+      = some ⟨"standard".toList, canonSet (syms ++ ['-']), ['-'], ['?'], ['.'], false⟩ := by
+  have hS : ∀ c ∈ canonSet (syms ++ ['-']), isWs c = false ∧ captured.contains c = false ∧ c.toUpper = c := by
+    intro c hc
+    have := mem_canonSet c _ hc
+    simp only [List.mem_append, List.mem_singleton] at this
+    rcases this with hm | hm
+    · exact h c hm
+    · subst hm; decide
+  have hne : canonSet (syms ++ ['-']) ≠ [] := by
+    cases syms with
+    | nil => simp [canonSet, insertC]
+    | cons c cs => simp only [canonSet, List.cons_append, List.foldr_cons]; exact insertC_ne_nil _ _
+  rw [format_standard_text]
+  exact parse_symbols_text _ hS hne
+
+end DendroModel.C09
+
+namespace DendroModel.C09
+example : SymsOk "01AB#".toList := by unfold SymsOk; decide
+/-- `convert`: what one format's reader returns, written in another format and read again, is the original content -/
+theorem convert_fasta_phylip_roundtrip (cfg : PhCfg) (w : Bool) (rows : List (Str × Str))
+    (hs : cfg.strict = false) (hi : cfg.interleaved = false) (hne : rows ≠ [])
+    (hlen : ∀ r ∈ rows, r.2.length = maxLen (rows.map (·.2))) (hpos : 0 < maxLen (rows.map (·.2)))
+    (hnd : (rows.map (fun r => lower r.1)).Nodup)
+    (hfa : ∀ r ∈ rows, FaNameOk r.1 ∧ r.2 ≠ [] ∧ ∀ c ∈ r.2, FaSymOk cfg.al c)
+    (hlab : ∀ r ∈ rows, RelaxedLabelOk w cfg.underscoresToSpaces r.1) :
+    (faRead cfg.al [] none (splitLines (faWrite rows))).bind (fun got => phRead cfg (phWrite false w got ++ [[]])) = .ok rows ∧
+    (phRead cfg (phWrite false w rows ++ [[]])).bind (fun got => faRead cfg.al [] none (splitLines (faWrite got))) = .ok rows := by
+  have hseq : ∀ r ∈ rows, SeqOk cfg.al r.2 := fun r hr c hc => ⟨((hfa r hr).2.2 c hc).1, ((hfa r hr).2.2 c hc).2.1⟩
+  have h1 := fasta_roundtrip cfg.al rows hnd hfa
+  have h2 := phylip_relaxed_roundtrip cfg w rows hs hi hne hlen hpos hnd hlab hseq
+  constructor
+  · rw [h1]; exact h2
+  · rw [h2]; exact h1
+end DendroModel.C09
+
+/-! ## conversion chains -/
+
+namespace DendroModel.C09
+open DendroModel.C09.Aux DendroModel.Alphabets
+
+/-- a matrix of symbols as cells, and a cell matrix as text rows (what the driver prints) -/
+def symM (rows : List (Str × Str)) : Matrix := rows.map (fun r => (r.1, r.2.map Cell.sym))
+def toRows (m : Matrix) : List (Str × Str) := m.map (fun r => (r.1, renderCells r.2))
+
+theorem renderCells_sym (s : Str) : renderCells (s.map Cell.sym) = s := by
+  induction s with
+  | nil => rfl
+  | cons c cs ih => simp [renderCells, renderCell, ih]
+
+theorem toRows_symM (rows : List (Str × Str)) : toRows (symM rows) = rows := by
+  induction rows with
+  | nil => rfl
+  | cons r rs ih =>
+    simp only [symM, toRows, List.map_cons, List.map_map] at ih ⊢
+    simp [renderCells_sym, ih]
+
+theorem normM_symM (rows : List (Str × Str)) : normM (symM rows) = symM rows := by
+  simp [normM, symM, readsAs, Function.comp_def]
+
+/-- **conversion chain NEXUS → PHYLIP → FASTA.**  A symbol matrix written as NEXUS, read, written as relaxed PHYLIP,
+read, written as FASTA and read is the matrix it started as (each hop under the admissibility conditions of its
+format: the conversion "never changes its content"). -/
+theorem convert_nexus_phylip_fasta_roundtrip (ncfg : NxCfg) (pcfg : PhCfg) (w : Bool) (rows : List (Str × Str))
+    (hal : pcfg.al = ncfg.al) (hni : ncfg.interleave = false) (hnc : ncfg.nchar = maxLen (rows.map (·.2)))
+    (hnt : ncfg.ntax = 0 ∨ rows.length ≤ ncfg.ntax)
+    (hs : pcfg.strict = false) (hi : pcfg.interleaved = false) (hne : rows ≠ [])
+    (hlen : ∀ r ∈ rows, r.2.length = maxLen (rows.map (·.2))) (hpos : 0 < maxLen (rows.map (·.2)))
+    (hnd : (rows.map (fun r => lower r.1)).Nodup)
+    (hfa : ∀ r ∈ rows, FaNameOk r.1 ∧ r.2 ≠ [] ∧ ∀ c ∈ r.2, FaSymOk ncfg.al c)
+    (hnx : ∀ r ∈ rows, ∀ c ∈ r.2, c ≠ '{' ∧ c ≠ '(' ∧ c ≠ ';' ∧ c ∉ ncfg.matchChars)
+    (hlab : ∀ r ∈ rows, RelaxedLabelOk w pcfg.underscoresToSpaces r.1) :
+    (((nxRead ncfg (rows.map (·.1)) (nxRows (symM rows))).map toRows).bind
+        (fun a => phRead pcfg (phWrite false w a ++ [[]]))).bind
+        (fun b => faRead ncfg.al [] none (splitLines (faWrite b))) = .ok rows := by
+  have hcell : ∀ r ∈ symM rows, ∀ c ∈ r.2, CellOk ncfg.al ncfg.matchChars c := by
+    intro r hr c hc
+    simp only [symM, List.mem_map] at hr
+    obtain ⟨q, hq, rfl⟩ := hr
+    simp only [List.mem_map] at hc
+    obtain ⟨ch, hch, rfl⟩ := hc
+    have h1 := (hfa q hq).2.2 ch hch
+    have h2 := hnx q hq ch hch
+    exact ⟨h1.1, h1.2.1, h2.1, h2.2.1, h2.2.2.1, h2.2.2.2⟩
+  have hN := (nexus_matrix_roundtrip ncfg (symM rows) hni (by simpa [symM, Function.comp_def] using hnd) hcell
+    (by intro r hr
+        simp only [symM, List.mem_map] at hr
+        obtain ⟨q, hq, rfl⟩ := hr
+        simp [hlen q hq, hnc])
+    (by simpa [symM] using hnt)).1
+  have hlabels : (symM rows).map (·.1) = rows.map (·.1) := by simp [symM, Function.comp_def]
+  rw [hlabels, normM_symM] at hN
+  have hseq : ∀ r ∈ rows, SeqOk pcfg.al r.2 := by
+    intro r hr c hc
+    rw [hal]
+    exact ⟨((hfa r hr).2.2 c hc).1, ((hfa r hr).2.2 c hc).2.1⟩
+  have hP := phylip_relaxed_roundtrip pcfg w rows hs hi hne hlen hpos hnd hlab hseq
+  have hF := fasta_roundtrip ncfg.al rows hnd hfa
+  rw [hN]
+  simp only [Except.map, Except.bind, toRows_symM, hP, hF]
+
+end DendroModel.C09
+
+
+/-! ## MATCHCHAR, interleaved -/
+
+namespace DendroModel.C09
+open DendroModel.C09.Aux DendroModel.Alphabets
+
+/-! ### MATCHCHAR and interleaved NEXUS -/
+
+/-- a row in which some cells are given by the match character (`none`) -/
+def renderM (mc : Char) : List (Option Cell) → Str
+  | [] => []
+  | none :: r => mc :: renderM mc r
+  | some c :: r => renderCell c ++ renderM mc r
+
+/-- the cells such a row stands for: position `k` of the first sequence wherever the match character is used -/
+def fillM (f : List Cell) : Nat → List (Option Cell) → List Cell
+  | _, [] => []
+  | k, none :: r => f.getD k (.sym '?') :: fillM f (k + 1) r
+  | k, some c :: r => readsAs c :: fillM f (k + 1) r
+
+theorem matchchar_fold (cfg : RCfg) (f : List Cell) (mc : Char) (hfirst : cfg.first = some f)
+    (hmc : cfg.matchChars.contains mc = true) (hmw : isWs mc = false) (hm1 : mc ≠ '{') (hm2 : mc ≠ '(') (hm3 : mc ≠ ';') :
+    ∀ (items : List (Option Cell)) (out : List Cell),
+      (∀ c, some c ∈ items → CellOk cfg.al cfg.matchChars c) →
+      cfg.have_ + out.length + items.length ≤ cfg.nchar → cfg.have_ + out.length + items.length ≤ f.length →
+      (renderM mc items).foldl (stepChar cfg) ⟨out, none, none⟩
+        = ⟨out ++ fillM f (cfg.have_ + out.length) items, none, none⟩ := by
+  intro items
+  induction items with
+  | nil => intro out _ _ _; simp [renderM, fillM]
+  | cons it rest ih =>
+    intro out hok hn hf
+    have hrest1 : ∀ x : Cell, cfg.have_ + (out ++ [x]).length + rest.length ≤ cfg.nchar := by
+      intro x; simp at hn ⊢; omega
+    have hrest2 : ∀ x : Cell, cfg.have_ + (out ++ [x]).length + rest.length ≤ f.length := by
+      intro x; simp at hf ⊢; omega
+    have hpos : ∀ x : Cell, cfg.have_ + (out ++ [x]).length = cfg.have_ + out.length + 1 := by
+      intro x; simp; omega
+    cases it with
+    | none =>
+      have hlt : ¬ (cfg.have_ + out.length ≥ cfg.nchar) := by simp at hn ⊢; omega
+      have hidx : cfg.have_ + out.length < f.length := by simp at hf; omega
+      obtain ⟨x, hx1, hx2⟩ : ∃ x, f[cfg.have_ + out.length]? = some x ∧ f.getD (cfg.have_ + out.length) (.sym '?') = x := by
+        refine ⟨f[cfg.have_ + out.length], List.getElem?_eq_getElem hidx, ?_⟩
+        rw [List.getD_eq_getElem?_getD, List.getElem?_eq_getElem hidx]; rfl
+      have hstep : stepChar cfg ⟨out, none, none⟩ mc = ⟨out ++ [x], none, none⟩ := by
+        have hmem : mc ∈ cfg.matchChars := by simpa using hmc
+        unfold stepChar pushCell
+        simp [hmw, hm1, hm2, hm3, hmem, hfirst, hx1, hlt]
+      simp only [renderM, List.foldl_cons, hstep, fillM, hx2]
+      rw [ih _ (fun c hc => hok c (by simp [hc])) (hrest1 _) (hrest2 _), hpos]
+      simp
+    | some c =>
+      have hc := hok c (by simp)
+      have h1 := cells_fold cfg [c] out (by intro x hx; simp at hx; subst hx; exact hc) (by simp at hn ⊢; omega)
+      simp only [renderCells, List.append_nil, List.map_cons, List.map_nil] at h1
+      simp only [renderM, List.foldl_append, h1, fillM]
+      rw [ih _ (fun c hc => hok c (by simp [hc])) (hrest1 _) (hrest2 _), hpos]
+      simp
+
+/-- **MATCHCHAR.**  A row in which any cells are replaced by the match character reads as the cells of the first
+sequence at those positions and as the written cells elsewhere (`_read_character_states` with `first_sequence_defined`) -/
+theorem matchchar_row_roundtrip (cfg : RCfg) (f : List Cell) (mc : Char) (items : List (Option Cell))
+    (hfirst : cfg.first = some f) (hmc : cfg.matchChars.contains mc = true)
+    (hmw : isWs mc = false) (hm1 : mc ≠ '{') (hm2 : mc ≠ '(') (hm3 : mc ≠ ';')
+    (hok : ∀ c, some c ∈ items → CellOk cfg.al cfg.matchChars c)
+    (hn : cfg.have_ + items.length ≤ cfg.nchar) (hf : cfg.have_ + items.length ≤ f.length) :
+    readStates cfg (renderM mc items) = .ok (fillM f cfg.have_ items) := by
+  unfold readStates
+  have := matchchar_fold cfg f mc hfirst hmc hmw hm1 hm2 hm3 items [] hok (by simpa using hn) (by simpa using hf)
+  simp [this]
+
+/-- **interleaved NEXUS, one line.**  A further chunk of a row that already has `cur` cells is appended to it.
+`_partial`: this is the step of the interleaved reader (any row, any earlier content, any chunk that fits NCHAR); the
+fold over all lines of all pages — "the pages of a matrix read back as the matrix" — is not proved (interleaved sources
+are compared with the code on every such case). -/
+theorem nexus_interleaved_roundtrip_partial (cfg : NxCfg) (acc : Acc) (first : Option Str) (label : Str) (cur cells : List Cell)
+    (hk : findRow acc label = some (some cur)) (hi : cfg.interleave = true)
+    (hok : ∀ c ∈ cells, CellOk cfg.al cfg.matchChars c) (hlen : cur.length + cells.length ≤ cfg.nchar) :
+    nxStep cfg (.ok (acc, first)) (label, renderCells cells)
+      = .ok (setRow acc label (cur ++ cells.map readsAs), some (first.getD label)) := by
+  have hrs := cells_roundtrip ⟨cfg.al, cfg.matchChars, first.bind (fun l => (findRow acc l).bind id), cfg.nchar, cur.length⟩
+    cells hok hlen
+  simp [nxStep, hk, hrs, hi]
+
+example : readStates ⟨mkStates dna, ['.'], some [.sym 'A', .sym 'C', .sym 'G'], 3, 0⟩ (renderM '.' [none, some (.sym 'T'), none])
+    = .ok (fillM [.sym 'A', .sym 'C', .sym 'G'] 0 [none, some (.sym 'T'), none]) :=
+  matchchar_row_roundtrip _ _ '.' _ rfl (by decide) (by decide) (by decide) (by decide) (by decide)
+    (by intro c hc; simp at hc; subst hc; unfold CellOk; decide) (by decide) (by decide)
+
+end DendroModel.C09
+
